@@ -1,5 +1,143 @@
-import StraxModel.Model.Basic
+import StraxModel.Lemmas.MailboxProg
+/-
+  C05 — a mailbox delivers every message exactly once, in order, to every subscriber.
+
+  All theorems quantify over every configuration `c` (any number of subscribers, any program of the
+  source, any capacity, lazy or eager, any driver mask, workers, killers) and every state reachable in the
+  transition system of Model/Mailbox.lean, i.e. every schedule.  The invariant behind them is
+  `Strax.Mailbox.Inv` (Lemmas/Mailbox.lean).
+-/
 namespace Strax.C05
-open Strax
+open Strax Strax.Mailbox
+
+/-- `Reachable` (inductive) contains everything an explicit schedule reaches from `init` -/
+theorem reachable_run (c : Config) (sched : List ThreadId) (s : Sys) (h : run? (init c) sched = some s) :
+    Reachable c s := Reachable.of_run h
+
+/-- the buffer never exceeds `max_messages` (eager mailboxes, and lazy ones given a finite capacity) -/
+theorem capacity_inv (c : Config) (s : Sys) (h : Reachable c s) (k : Nat) (hc : c.cap = some k) :
+    s.mb.heap.length ≤ k := by
+  have hs := Static.reachable h
+  have : s.mb.cap = c.cap := congrArg (fun x => x.1) hs
+  exact (Inv.reachable h).mb.capOk k (by rw [this, hc])
+
+/-- exactly-once, in-order delivery as a safety property of every reachable state: what subscriber `i`
+has been handed (`got`), followed by what it has collected but not yet handed over (`tailOf pc`: messages
+behind a future that is not done yet / the end marker and whatever followed it), is exactly the list of
+the messages numbered `0 … have_read[i]` in number order; and the end marker is never handed over. -/
+theorem delivery_prefix (c : Config) (s : Sys) (h : Reachable c s) (i : Nat) (sub : Sub) (r : Reader)
+    (hs : s.mb.subs[i]? = some sub) (hr : s.readers[i]? = some r) :
+    Msg.stop ∉ r.got ∧ r.got ++ tailOf r.pc = inOrder s.sent sub.next :=
+  (Inv.reachable h).rd.deliv i sub r hs hr
+
+/-- **exactly once, in order, and then the subscriber terminates**: for every configuration inside the domain
+(`Config.valid`: the source neither raises nor yields the end marker, nobody calls `kill`, message numbers —
+explicit or by position — are exactly `0 … n-1`), in every reachable state in which all threads have ended,
+every subscriber has been handed exactly the messages of the program in number order (futures standing for
+their results) and its iterator has ended normally on the end marker.  (That such a state is reached — no
+deadlock — is `deadlock_free`.) -/
+theorem delivery_exact (c : Config) (hv : c.valid = true) (s : Sys) (h : Reachable c s) (hf : s.final = true)
+    (i : Nat) (r : Reader) (hr : s.readers[i]? = some r) :
+    r.got = inOrder (numbered c.prog 0) c.prog.length ∧ ∃ rest, r.pc = .done rest :=
+  delivery_exact_core hv h hf i r hr
+
+/-- inside the domain nothing is ever dropped or killed and the sender's log is a prefix of the program -/
+theorem sent_is_program_prefix (c : Config) (hv : c.valid = true) (s : Sys) (h : Reachable c s) :
+    s.mb.killed = false ∧ (∀ e, s.spc ≠ .dead e) ∧
+    (s.sent = (numbered c.prog 0).take s.sent.length ∨ s.sent = numbered c.prog 0 ++ [(c.prog.length, .stop)]) := by
+  have hp := ProgInv.reachable hv h
+  refine ⟨hp.killed, ?_, ?_⟩
+  · intro e he; have := hp.pc; simp [progPc, he] at this
+  · have := hp.pc
+    unfold progPc at this
+    cases hspc : s.spc <;> simp only [hspc] at this <;>
+      first
+        | exact Or.inl this.2.1
+        | exact Or.inr this
+        | (left; rw [this.2.1]; simp)
+
+/-- every number below `have_read[i] + 1` has really been sent (so `inOrder` skips nothing) -/
+theorem delivery_no_gap (c : Config) (s : Sys) (h : Reachable c s) (i : Nat) (sub : Sub)
+    (hs : s.mb.subs[i]? = some sub) (j : Nat) (hj : j < sub.next) : (getMsg s.sent j).isSome :=
+  (Inv.reachable h).mb.found i sub hs j hj
+
+/-- a subscriber that is inside `Condition.wait` (flag present) and whose predicate `next_ready` holds has
+been notified — no lost wake-up on `_read_condition` -/
+theorem no_lost_wakeup_read (c : Config) (s : Sys) (h : Reachable c s) (i : Nat) (sub : Sub)
+    (hs : s.mb.subs[i]? = some sub) (hw : sub.flag ≠ none)
+    (hp : hasNum s.mb.heap sub.next = true ∨ s.mb.killed = true) : sub.flag = some true := by
+  cases hf : sub.flag with
+  | none => exact absurd hf hw
+  | some b =>
+    cases b with
+    | true => rfl
+    | false =>
+      have := (Inv.reachable h).mb.wakeR i sub hs hf
+      rcases hp with hp | hp
+      · rw [this.1] at hp; cases hp
+      · rw [this.2] at hp; cases hp
+
+/-- … on `_write_condition` (the sender waiting for room) -/
+theorem no_lost_wakeup_write (c : Config) (s : Sys) (h : Reachable c s) (hw : s.mb.writeFlag ≠ none)
+    (hp : s.mb.canWrite = true) : s.mb.writeFlag = some true := by
+  cases hf : s.mb.writeFlag with
+  | none => exact absurd hf hw
+  | some b =>
+    cases b with
+    | true => rfl
+    | false => have := (Inv.reachable h).mb.wakeW hf; rw [this] at hp; cases hp
+
+/-- … on `_fetch_new_condition` (the lazy sender waiting for demand) -/
+theorem no_lost_wakeup_fetch (c : Config) (s : Sys) (h : Reachable c s) (hw : s.mb.fetchFlag ≠ none)
+    (hp : s.mb.canFetch = true) : s.mb.fetchFlag = some true := by
+  cases hf : s.mb.fetchFlag with
+  | none => exact absurd hf hw
+  | some b =>
+    cases b with
+    | true => rfl
+    | false => have := (Inv.reachable h).mb.wakeF hf; rw [this] at hp; cases hp
+
+/-- the three wake-up statements together -/
+theorem no_lost_wakeup (c : Config) (s : Sys) (h : Reachable c s) :
+    (∀ (i : Nat) (sub : Sub), s.mb.subs[i]? = some sub → sub.flag ≠ none →
+      (hasNum s.mb.heap sub.next = true ∨ s.mb.killed = true) → sub.flag = some true) ∧
+    (s.mb.writeFlag ≠ none → s.mb.canWrite = true → s.mb.writeFlag = some true) ∧
+    (s.mb.fetchFlag ≠ none → s.mb.canFetch = true → s.mb.fetchFlag = some true) :=
+  ⟨fun i sub hs => no_lost_wakeup_read c s h i sub hs, no_lost_wakeup_write c s h, no_lost_wakeup_fetch c s h⟩
+
+/-! ### non-vacuity: concrete reachable states -/
+
+/-- eager, capacity 1, two subscribers, messages `p10 p20` and a future; worker 0 completes the future -/
+def exCfg : Config :=
+  { cap := some 1, lazy := false, gateRule := .hasMsg, drive := [true, true],
+    prog := [.item none (.plain 10), .item none (.fut 0 20)], workers := [[0]], killers := [] }
+
+/-- sender fetches and sends 10, is blocked by the capacity, both readers take it, the sender goes on -/
+def exSched : List ThreadId :=
+  [.sender, .sender, .sender, .sender, .reader 0, .reader 1, .sender, .reader 0]
+
+example : ∃ s, run? (init exCfg) exSched = some s ∧ s.mb.heap.length = 1 ∧ s.mb.subs.map (·.next) = [2, 1] ∧
+    s.readers.map (·.pc) = [.futW [.fut 0 20], .read] := by
+  decide
+
+/-- out-of-order explicit numbers within the capacity: `1` is sent before `0` -/
+def exCfg2 : Config :=
+  { cap := some 2, lazy := false, gateRule := .hasMsg, drive := [true],
+    prog := [.item (some 1) (.plain 10), .item (some 0) (.fut 0 20)], workers := [[0]], killers := [] }
+
+example : exCfg.valid = true ∧ exCfg2.valid = true := by decide
+
+/-- `delivery_exact` is not vacuous: a complete run of `exCfg2` (all threads ended); the subscriber got the
+future's message (number 0) before the plain one (number 1) -/
+example : ∃ s, run? (init exCfg2)
+      [.sender, .sender, .sender, .sender, .sender, .sender, .reader 0, .worker 0, .reader 0, .reader 0,
+       .sender, .reader 0] = some s ∧
+    s.final = true ∧ s.readers.map (·.got) = [[.fut 0 20, .plain 10]] := by
+  decide
+
+/-- a state with a blocked sender whose predicate is false (flag `some false`), i.e. the hypothesis
+`writeFlag ≠ none` of `no_lost_wakeup_write` is satisfiable -/
+example : ∃ s, run? (init exCfg) [.sender, .sender, .sender, .sender] = some s ∧ s.mb.writeFlag = some false := by
+  decide
 
 end Strax.C05
